@@ -332,6 +332,8 @@ func vfC14Loop(t *testing.T, s *vfutil.Session, c *vfLCase, src string) {
 	var startEnd int
 	inner := strings.HasPrefix(c.fault, "inner:")
 	lost := strings.HasPrefix(c.fault, "lostreply:") || c.fault == "lostsave"
+	// cutexec:<u> = the connection is cut when the EXEC of unit u arrives: the transaction is NOT executed, no reply
+	cut := strings.HasPrefix(c.fault, "cutexec:")
 	run := func(failAt map[int]string) (*vfdoubles.Target, int, error, *RedisOutput, vfLPoint) {
 		tg := vfdoubles.NewTarget()
 		c.seed(tg)
@@ -342,6 +344,11 @@ func vfC14Loop(t *testing.T, s *vfutil.Session, c *vfLCase, src string) {
 					tg.LoseReplyAt = map[int]bool{}
 				}
 				tg.LoseReplyAt[k] = true
+			} else if cut {
+				if tg.DropAt == nil {
+					tg.DropAt = map[int]bool{}
+				}
+				tg.DropAt[k] = true
 			} else if inner {
 				tg.FailInner[k] = v // the command fails when EXEC runs it (the rest of the unit is applied)
 			} else {
@@ -431,7 +438,7 @@ func vfC14Loop(t *testing.T, s *vfutil.Session, c *vfLCase, src string) {
 				if e.Cmd() == "hset" && !e.Queued && string(e.Args[1]) == checkpoint.BisyncFrontierKey(vfC14Cp) {
 					failAt = map[int]string{i: "reply lost"}
 				}
-			case lost && e.Queued && e.Cmd() == "set" && len(e.Args) > 1:
+			case (lost || cut) && e.Queued && e.Cmd() == "set" && len(e.Args) > 1:
 				u, _ := strconv.Atoi(c.fault[strings.Index(c.fault, ":")+1:])
 				if u < len(ks) && string(e.Args[1]) == ks[u] {
 					for j := i + 1; j < len(log0); j++ {
@@ -450,6 +457,9 @@ func vfC14Loop(t *testing.T, s *vfutil.Session, c *vfLCase, src string) {
 		}
 		if failAt == nil {
 			s.Count("loop_fault_not_applicable")
+			if src == "matrix" {
+				s.Count("loop_matrix_fault_not_applicable")
+			}
 			failAt = map[int]string{}
 		} else {
 			s.Count("loop_fault_" + strings.SplitN(c.fault, ":", 2)[0])
@@ -464,6 +474,7 @@ func vfC14Loop(t *testing.T, s *vfutil.Session, c *vfLCase, src string) {
 			delete(tg.FailAt, k)
 			delete(tg.FailInner, k)
 			delete(tg.LoseReplyAt, k)
+			delete(tg.DropAt, k)
 			s.Count("loop_fault_not_reached")
 		}
 	}
@@ -472,7 +483,21 @@ func vfC14Loop(t *testing.T, s *vfutil.Session, c *vfLCase, src string) {
 		failAt = map[int]string{}
 	}
 	// a crash state = the request prefix, the injected fault failing again where it did
-	replay := func(l []vfdoubles.LogEntry) *vfdoubles.Target { return vfdoubles.ReplayFaults(l, 0, true, failAt) }
+	cutIdx := -1
+	if cut {
+		for k := range failAt {
+			cutIdx = k
+		}
+		failAt = map[int]string{}
+	}
+	replay := func(l []vfdoubles.LogEntry) *vfdoubles.Target {
+		if cutIdx >= 0 && cutIdx < len(l) {
+			// the EXEC that was cut never ran: the prefix without it (its MULTI stays open on a closed connection: no effect)
+			l2 := append(append([]vfdoubles.LogEntry{}, l[:cutIdx]...), l[cutIdx+1:]...)
+			return vfdoubles.ReplayFaults(l2, 0, true, nil)
+		}
+		return vfdoubles.ReplayFaults(l, 0, true, failAt)
+	}
 	s.Count("loop_" + c.mode + "_" + src)
 	if c.stale > 0 {
 		s.Count("loop_stale_frontier")
@@ -898,6 +923,32 @@ func vfC14LoopGenLost(r *vfutil.Rand, mode string) *vfLCase {
 		c.txnAt = r.Range(1, c.n)
 	}
 	return c
+}
+
+// the lost-reply x restart matrix, enumerated: every mode x every unit k of an n-unit stream x the three ways a
+// unit's transaction can go wrong on the wire (queued command refused = EXECABORT; connection cut BEFORE the EXEC
+// ran; EXEC executed, reply lost) x flush tick before the end or not. vfC14Loop then takes every request prefix to a fresh
+// process AND lets the same process start again (c14p) - the (fresh, same process) dimension.
+func vfC14LoopMatrix() []*vfLCase {
+	var out []*vfLCase
+	ns := []int{3}
+	if vfutil.Scale(0, 1) == 1 {
+		ns = []int{2, 3, 4}
+	}
+	for _, mode := range []string{"L", "P", "F"} {
+		for _, n := range ns {
+			for k := 1; k <= n; k++ {
+				for fi, f := range []string{"queued", "cutexec", "lostreply"} {
+					settle := []int{0, 150}[(k+fi)%2] // (settle < 0 = abrupt end: the parser may drop buffered units, the fault may not be reached)
+					if vfutil.Scale(0, 1) == 1 {
+						out = append(out, &vfLCase{mode: mode, lanes: 1, n: n, fault: f + ":" + strconv.Itoa(k), settle: 150 - settle, cutSeed: uint64(7*k + n)})
+					}
+					out = append(out, &vfLCase{mode: mode, lanes: 1, n: n, fault: f + ":" + strconv.Itoa(k), settle: settle, cutSeed: uint64(k + n)})
+				}
+			}
+		}
+	}
+	return out
 }
 
 func vfC14LoopGenLanes(r *vfutil.Rand) *vfLCase {
@@ -1771,6 +1822,10 @@ func TestVerifC14Loop(t *testing.T) {
 	n = vfutil.Scale(12, 120)
 	for i := 0; i < n; i++ {
 		vfC14Loop(t, s, vfC14LoopGenLost(r.Fork(), []string{"L", "L", "P", "F"}[i%4]), "lost")
+	}
+	for _, c := range vfC14LoopMatrix() {
+		vfC14Loop(t, s, c, "matrix")
+		s.Count("loop_matrix_" + c.mode + "_" + strings.SplitN(c.fault, ":", 2)[0])
 	}
 	n = vfutil.Scale(14, 300)
 	for i := 0; i < n; i++ {
